@@ -358,6 +358,18 @@ class Rat:
     def subs(self, mapping):
         return self.num.subs(mapping) / self.den.subs(mapping)
 
+    def subs_deep(self, mapping):
+        """like subs, but also inside the arguments of uninterpreted-function atoms"""
+        mp = dict(mapping)
+        for a in self.atoms():
+            if a in mp: continue
+            k, n, args = _ATOMS[a]
+            if k == 'fn' and args:
+                na = [x.subs_deep(mapping) for x in args]
+                if any(not (x == y) for x, y in zip(na, args)):
+                    mp[a] = sqrt(na[0]) if n == 'sqrt' and len(na) == 1 else fn(n, *na)
+        return self.subs(mp)
+
     def diff(self, atom):
         if self.is_poly(): return Rat(self.num.diff(atom))
         # (n/d)' = (n' d - n d') / d^2
